@@ -3,7 +3,7 @@
    ends, for every segmentation) is C07 / C06; here: the framing decision and the grammar of the head. *)
 From Coq Require Import List NArith ZArith Bool.
 From GV Require Import Base.Bytes Base.Scan Base.PyStr Gen.GenParser Model.Parser Spec.Rfc9112
-     Proof.Framing Proof.HeadGrammar Proof.ChunkedDecode Proof.ParserRun Proof.ChunkedReader Proof.BodyFileThm.
+     Proof.Framing Proof.HeadGrammar Proof.ChunkedDecode Proof.ChunkedGrammar Proof.ParserRun Proof.ChunkedReader Proof.BodyFileThm.
 Import ListNotations.
 Local Open Scope N_scope.
 
@@ -88,6 +88,14 @@ Theorem C01_malformed_chunked_never_eof : forall c p D e, NE p ->
     decodes c (AStart (u_abs p)) D (DRaise e) -> alpha_c c (chunked_init p) = (D, Spec.IdealBody.TErr e).
 Proof. exact alpha_chunked_err. Qed.
 Print Assumptions C01_malformed_chunked_never_eof.
+
+(* chunked bodies: the bytes delivered and the end of the message are exactly those of the RFC 9112 7.1
+   grammar (chunk-size = 1*HEXDIG [BWS ";" ext], no CR/LF in the line, data, CRLF, ..., last-chunk, trailer
+   section up to the first empty line) - or the stream ended inside the trailer section and nothing follows *)
+Theorem C01_chunked_body_is_rfc : forall c s D after tr,
+    decodes c (AStart s) D (DStop after tr) -> rfc_chunked s D after \/ after = [].
+Proof. exact chunked_body_is_rfc. Qed.
+Print Assumptions C01_chunked_body_is_rfc.
 
 (* ---- non-vacuity ---- *)
 Definition H_TE_gzip_chunked : list header := [(n_te, s_gzip ++ [44; 32] ++ s_chunked)].
